@@ -1,5 +1,6 @@
 import AdaVerif.Model.Agg
 import AdaVerif.Model.PathPrepared
+import AdaVerif.Spec.Setters
 /-
 `url_aggregator::consume_prepared_path` (src/url_aggregator.cpp:1433-1600): the same trivial test and the same two
 loops as `helpers::parse_prepared_path` (the source says "largely duplicated code"), applied to a copy of the
@@ -15,5 +16,41 @@ def isAtPath (a : Agg) : Bool := a.buf.length == a.ps
 def consumePreparedPath (a : Agg) (ty : Nat) (input : Bytes) : Agg :=
   if PathPrepared.isTrivial input ty && isAtPath a then { a with buf := a.buf ++ 0x2F :: input }
   else updateBasePathname a (PathPrepared.pathLoops input ty (getPathname a))
+
+end AdaVerif.Model.Agg
+
+namespace AdaVerif.Model.Agg
+open AdaVerif
+
+/-- the first half of `clear_pathname()`: `buffer.erase(pathname_start, pathname_length)` and the offsets behind -/
+def erasePath (a : Agg) : Agg :=
+  let len := pathnameLength a
+  { a with buf := serase a.buf a.ps len, ss := shiftO a.ss (-(len : Int)), hh := shiftO a.hh (-(len : Int)) }
+
+/-- `clear_pathname()`: erase the path, and a "/." in front of it (tested on the bytes, not with `has_dash_dot()`) -/
+def clearPathname (a : Agg) : Agg :=
+  let a1 := erasePath a
+  if a1.ps == a1.he + 2 && at_ a1.buf a1.he == 0x2F && at_ a1.buf (a1.he + 1) == 0x2E then deleteDashDot a1 else a1
+
+/-- `url_aggregator::parse_path(input)` (src/url_aggregator.cpp:371-410) -/
+def parsePathA (ty : Nat) (special : Bool) (a : Agg) (input : Bytes) : Agg :=
+  let s := Spec.stripTN input
+  if special then
+    match s with
+    | [] => updateBasePathname a [0x2F]
+    | c :: rest =>
+      if c == 0x2F || c == 0x5C then consumePreparedPath a ty rest else consumePreparedPath a ty s
+  else
+    match s with
+    | c :: rest => if c == 0x2F then consumePreparedPath a ty rest else consumePreparedPath a ty s
+    | [] => if a.hs == a.he && !hasAuthority a then updateBasePathname a [0x2F] else a
+
+/-- `url_aggregator::set_pathname(input)` (src/url_aggregator.cpp:343-369) -/
+def setPathnameM (L ty : Nat) (special : Bool) (a : Agg) (v : Bytes) : Agg × Bool :=
+  if a.opq then (a, false)
+  else
+    let a1 := parsePathA ty special (clearPathname a) v
+    let a2 := if startsWithSlashSlash (getPathname a1) && !hasAuthority a1 && !hasDashDot a1 then insertDashDot a1 else a1
+    if a2.buf.length > L then (a, false) else (a2, true)
 
 end AdaVerif.Model.Agg
